@@ -66,12 +66,12 @@ mutual
     | .bool b => .ok (.val (.bool b))
     | .num n =>
       if inI64 n then
-        if inI32 n then .ok (.val (.int n)) else .panic "json_read:int_try_into"
+        if inI32 n then .ok (.val (.int n)) else .badJson "Unexpected value (int_try_into)"
       else .ok (.val (.float (floatOfInt n)))
     | .flt raw => .ok (.val (.float (floatOfRaw raw)))
     | .str s =>
       match s.toList with
-      | [] => .panic "json_read:empty_string"
+      | [] => .badJson "Unexpected value (empty_string)"
       | c :: rest =>
         if c = '^' then .ok (mkStr (String.ofList rest))
         else if s == "\n" then .ok (mkStr "\n")
@@ -96,13 +96,13 @@ mutual
       match get? tok "^var" with
       | some v =>
         match v.asStr? with
-        | none => .panic "json_read:varptr_name"
+        | none => .badJson "Unexpected value (varptr_name)"
         | some vn =>
           match get? tok "ci" with
           | some civ =>
             match asI64 civ with
             | some ci => .ok (.val (.varptr vn (wrapI32 ci)))
-            | none => .panic "json_read:varptr_ci"
+            | none => .badJson "Unexpected value (varptr_ci)"
           | none => .ok (.val (.varptr vn (-1)))
       | none =>
       -- Divert
@@ -119,16 +119,16 @@ mutual
       match dv with
       | some (v, pushes, ptype, ext) =>
         match v.asStr? with
-        | none => .panic "json_read:divert_target"
+        | none => .badJson "Unexpected value (divert_target)"
         | some target =>
           let isVar := (get? tok "var").isSome
           let cond := (get? tok "c").isSome
           let exArgs : Out Nat :=
             if ext then
               match get? tok "exArgs" with
-              | some av => match asI64 av with
-                | some n => .ok (if n < 0 then (n + 18446744073709551616).toNat else n.toNat)
-                | none => .panic "json_read:exArgs"
+              | some av => match asU64 av with
+                | some n => .ok n.toNat
+                | none => .badJson "Unexpected value (exArgs)"
               | none => .ok 0
             else .ok 0
           match exArgs with
@@ -143,23 +143,23 @@ mutual
       match get? tok "*" with
       | some cp =>
         match cp.asStr? with
-        | none => .panic "json_read:choice_path"
+        | none => .badJson "Unexpected value (choice_path)"
         | some ps =>
           match get? tok "flg" with
           | some f => match asU64 f with
             | some n => .ok (.choicePoint (wrapI32 n) (Path.parse ps.toList))
-            | none => .panic "json_read:choice_flg"
+            | none => .badJson "Unexpected value (choice_flg)"
           | none => .ok (.choicePoint 0 (Path.parse ps.toList))
       | none =>
       match get? tok "VAR?" with
       | some n => match n.asStr? with
         | some s => .ok (.varRef s none)
-        | none => .panic "json_read:varref_name"
+        | none => .badJson "Unexpected value (varref_name)"
       | none =>
       match get? tok "CNT?" with
       | some n => match n.asStr? with
         | some s => .ok (.varRef "" (some (Path.parse s.toList)))
-        | none => .panic "json_read:cnt_path"
+        | none => .badJson "Unexpected value (cnt_path)"
       | none =>
       let va : Option (Json × Bool) := match get? tok "VAR=" with
         | some v => some (v, true)
@@ -170,31 +170,31 @@ mutual
       | some (v, isGlobal) =>
         match v.asStr? with
         | some s => .ok (.varAss s (get? tok "re").isNone isGlobal)
-        | none => .panic "json_read:varass_name"
+        | none => .badJson "Unexpected value (varass_name)"
       | none =>
       match get? tok "#" with
       | some v => match v.asStr? with
         | some s => .ok (.tag s)
-        | none => .panic "json_read:tag_text"
+        | none => .badJson "Unexpected value (tag_text)"
       | none =>
       match get? tok "list" with
       | some lv =>
         match lv.asObj? with
-        | none => .panic "json_read:list_content"
+        | none => .badJson "Unexpected value (list_content)"
         | some content =>
           let origins : Out (List String) := match get? tok "origins" with
             | some o => match o.asArr? with
-              | none => .panic "json_read:list_origins"
+              | none => .badJson "Unexpected value (list_origins)"
               | some arr =>
                 if arr.all (fun e => e.asStr?.isSome) then .ok (arr.filterMap Json.asStr?)
-                else .panic "json_read:list_origin_name"
+                else .badJson "Unexpected value (list_origin_name)"
             | none => .ok []
           match origins with
           | .ok names =>
             if content.all (fun kv => (asI64 kv.2).isSome) then
               let items := content.map (fun kv => (ListItem.ofFullName kv.1, wrapI32 ((asI64 kv.2).getD 0)))
               .ok (.val (.list { items := items, origins := [], initialOrigins := names }))
-            else .panic "json_read:list_item_value"
+            else .badJson "Unexpected value (list_item_value)"
           | .err k m => .err k m
           | .panic s => .panic s
       | none =>
@@ -207,7 +207,7 @@ mutual
     | 0 => .err "Fuel" "loader fuel"
     | fuel + 1 =>
     match xs.getLast? with
-    | none => .panic "json_read:empty_array"
+    | none => .badJson "Unexpected value (empty_array)"
     | some last =>
       match termObj fuel (last.asObj?.getD []) name 0 [] with
       | .ok (name', flags, named) =>
@@ -229,18 +229,18 @@ mutual
     | (k, v) :: rest =>
       if k == "#f" then
         match asI64 v with
-        | some n => if inI32 n then termObj fuel rest name n named else .panic "json_read:count_flags_range"
-        | none => .panic "json_read:count_flags"
+        | some n => if inI32 n then termObj fuel rest name n named else .badJson "Unexpected value (count_flags_range)"
+        | none => .badJson "Unexpected value (count_flags)"
       else if k == "#n" then
         match v.asStr? with
         | some s => termObj fuel rest (some s) flags named
-        | none => .panic "json_read:container_name"
+        | none => .badJson "Unexpected value (container_name)"
       else
         match tokenToObj fuel v (some k) with
         | .ok o =>
           if o.isContainer then termObj fuel rest name flags ((k, o) :: named)
-          else .panic "json_read:named_not_container"
-        | .err _ _ => .panic "json_read:named_item_unwrap"
+          else .badJson "Unexpected value (named_not_container)"
+        | .err k m => .err k m
         | .panic s => .panic s
 
   /-- `jarray_to_runtime_obj_list` -/
@@ -270,17 +270,17 @@ partial def jsonSizeAux : Json → Nat
 /-- `jtoken_to_list_definitions` -/
 def listDefs (d : Json) : Out ListDefs :=
   match d.asObj? with
-  | none => .panic "json_read:listdefs_object"
+  | none => .badJson "Unexpected value (listdefs_object)"
   | some lists =>
     let rec go : List (String × Json) → List (String × List (String × Int)) → Out ListDefs
       | [], acc => .ok acc.reverse
       | (name, lj) :: rest, acc =>
         match lj.asObj? with
-        | none => .panic "json_read:listdef_object"
+        | none => .badJson "Unexpected value (listdef_object)"
         | some items =>
-          if items.all (fun kv => (asU64 kv.2).isSome) then
-            go rest ((name, items.map (fun kv => (kv.1, wrapI32 ((asU64 kv.2).getD 0)))) :: acc)
-          else .panic "json_read:listdef_item_value"
+          if items.all (fun kv => match asI64 kv.2 with | some n => inI32 n | none => false) then
+            go rest ((name, items.map (fun kv => (kv.1, (asI64 kv.2).getD 0))) :: acc)
+          else .badJson "Unexpected value (listdef_item_value)"
     go lists []
 
 structure Loaded where
@@ -299,9 +299,9 @@ def loadStory (fuel : Nat) (doc : Option Json) : Out Loaded :=
     | some v =>
       if !isNumber v then .badJson "ink version number not found. Are you sure it's a valid .ink.json file?"
       else match asI64 v with
-      | none => .panic "json_read:version_as_i64"
+      | none => .badJson "Unexpected value (version_as_i64)"
       | some version =>
-        if !inI32 version then .panic "json_read:version_try_into"
+        if !inI32 version then .badJson "Unexpected value (version_try_into)"
         else if version > inkVersionCurrent then
           .badJson "Version of ink used to build story was newer than the current version of the engine"
         else if version < inkVersionMinimum then
